@@ -463,5 +463,39 @@ def run(chk, prog):
         chk.check(not swallowed, "R9", A.loc(pf, x), "%s: an exception of the parser leaves parse() (it is main that reports it and returns a failure status)%s"
                   % ((x.get("callee") or "").split("::")[-1], "" if not swallowed else "; caught here without re-throw: %s" % swallowed),
                   "parse:swallows:%s" % (x.get("callee") or "").split("::")[-1])
+    # ---- R10: a group is complete when it is put into another group -----------------------------------------------------------------------------
+    # options_description::add(const options_description&) copies the argument as it is at that moment: everything that fills group Y
+    # (Y.add_options()..., Y.add(Z)) must come before every X.add(Y), or X is built from an incomplete Y (legacy names no longer accepted)
+    ctor = t.ctor
+    fills, puts = {}, []
+    for x in A.walk(ctor["body"]):
+        if x.get("k") != "CXXMemberCallExpr":
+            continue
+        cal = x.get("callee") or ""
+        obj = A.this_field(A.strip(A.call_object(x))) if A.call_object(x) is not None else None
+        if obj is None:
+            continue
+        if cal.endswith("options_description::add_options"):
+            fills.setdefault(obj, []).append(x)
+        elif cal.endswith("options_description::add") and x.get("args"):
+            src = A.this_field(A.strip(x["args"][0]))
+            if src is not None:
+                puts.append((obj, src, x))
+                fills.setdefault(obj, []).append(x)
+    chk.floor("R10-group-compositions", len(puts), 4)
+    # the end of the statement a fill belongs to (the whole add_options()(...)(...) chain) is what must precede
+    cidx = A.index(ctor)
+
+    def stmt_end(n):
+        cur = n
+        while True:
+            par = cidx[1].get(cur["id"])
+            if par is None or par.get("k") == "CompoundStmt":
+                return max(y["id"] for y in A.walk(cur))
+            cur = par
+    for dst, src, x in puts:
+        late = [f_ for f_ in fills.get(src, []) if stmt_end(f_) > x["id"] and f_ is not x]
+        chk.check(not late, "R10", A.loc(ctor, x), "%s.add(%s): every statement that fills %s comes before (%d later: lines %s)"
+                  % (dst, src, src, len(late), sorted({f_["line"] for f_ in late})), "options:group-copied-before-filled:%s<-%s" % (dst, src))
     chk.notes.append("C20: store order and targets, _vm writers, alias truth tables on a finite model of boost store/notify instantiated "
                      "with the extracted option table, ignored-option fields, cli/file agreement, error discipline. Exhaustive over the table.")
